@@ -4,27 +4,52 @@ namespace Jug.Generated.Dump
 open Jug.FS
 /-- file-system operation sequences of the real file_store.dump / resave_pack, recorded for representative values -/
 def sequences : List (String × List FOp) := [
-  ("pickle-small", [.mkTempElsewhere, .write 2, .write 0, .write 24, .flush, .flush, .fsync, .close, .flush, .fsyncDir]),
-  ("pickle-large", [.mkTempElsewhere, .write 2, .write 34926, .write 46541, .write 34825, .write 11134, .flush, .flush, .fsync, .close, .flush, .fsyncDir]),
-  ("str-large", [.mkTempElsewhere, .write 2, .write 0, .write 0, .write 0, .write 126, .flush, .flush, .fsync, .close, .flush, .fsyncDir]),
-  ("none", [.mkTempElsewhere, .flush, .fsync, .close, .flush, .fsyncDir]),
-  ("npy", [.mkTempElsewhere, .write 128, .flush, .writeDirect 8000, .flush, .fsync, .close, .flush, .fsyncDir]),
-  ("npy-large", [.mkTempElsewhere, .write 128, .flush, .writeDirect 1600000, .flush, .fsync, .close, .flush, .fsyncDir]),
-  ("npy-empty", [.mkTempElsewhere, .write 128, .flush, .flush, .fsync, .close, .flush, .fsyncDir]),
-  ("npy-0d", [.mkTempElsewhere, .write 128, .flush, .writeDirect 8, .flush, .fsync, .close, .flush, .fsyncDir]),
-  ("npy-fortran", [.mkTempElsewhere, .write 128, .flush, .writeDirect 96, .flush, .fsync, .close, .flush, .fsyncDir]),
-  ("npy-strided", [.mkTempElsewhere, .write 128, .flush, .writeDirect 272, .flush, .fsync, .close, .flush, .fsyncDir]),
-  ("npy-object-small", [.mkTempElsewhere, .write 128, .write 160, .flush, .fsync, .close, .flush, .fsyncDir]),
-  ("npy-object-large", [.mkTempElsewhere, .write 128, .write 39048, .flush, .fsync, .close, .flush, .fsyncDir]),
-  ("npy-datetime", [.mkTempElsewhere, .write 128, .flush, .writeDirect 16, .flush, .fsync, .close, .flush, .fsyncDir]),
-  ("npy-compressed", [.mkTempElsewhere, .write 2, .write 0, .write 0, .write 1640, .flush, .flush, .fsync, .close, .flush, .fsyncDir]),
-  ("dict-of-arrays", [.mkTempElsewhere, .write 2, .write 0, .write 160, .flush, .flush, .fsync, .close, .flush, .fsyncDir]),
+  ("pickle-small", [.mkstemp, .write 2, .write 0, .write 24, .flush, .flush, .fsync, .close, .flush, .fsyncDir, .rename]),
+  ("pickle-large", [.mkstemp, .write 2, .write 34926, .write 46541, .write 34825, .write 11134, .flush, .flush, .fsync, .close, .flush, .fsyncDir, .rename]),
+  ("str-large", [.mkstemp, .write 2, .write 0, .write 0, .write 0, .write 126, .flush, .flush, .fsync, .close, .flush, .fsyncDir, .rename]),
+  ("none", [.mkstemp, .flush, .fsync, .close, .flush, .fsyncDir, .rename]),
+  ("npy", [.mkstemp, .write 128, .flush, .writeDirect 8000, .flush, .fsync, .close, .flush, .fsyncDir, .rename]),
+  ("npy-large", [.mkstemp, .write 128, .flush, .writeDirect 1600000, .flush, .fsync, .close, .flush, .fsyncDir, .rename]),
+  ("npy-empty", [.mkstemp, .write 128, .flush, .flush, .fsync, .close, .flush, .fsyncDir, .rename]),
+  ("npy-0d", [.mkstemp, .write 128, .flush, .writeDirect 8, .flush, .fsync, .close, .flush, .fsyncDir, .rename]),
+  ("npy-fortran", [.mkstemp, .write 128, .flush, .writeDirect 96, .flush, .fsync, .close, .flush, .fsyncDir, .rename]),
+  ("npy-strided", [.mkstemp, .write 128, .flush, .writeDirect 272, .flush, .fsync, .close, .flush, .fsyncDir, .rename]),
+  ("npy-object-small", [.mkstemp, .write 128, .write 160, .flush, .fsync, .close, .flush, .fsyncDir, .rename]),
+  ("npy-object-large", [.mkstemp, .write 128, .write 39048, .flush, .fsync, .close, .flush, .fsyncDir, .rename]),
+  ("npy-datetime", [.mkstemp, .write 128, .flush, .writeDirect 16, .flush, .fsync, .close, .flush, .fsyncDir, .rename]),
+  ("npy-compressed", [.mkstemp, .write 2, .write 0, .write 0, .write 1640, .flush, .flush, .fsync, .close, .flush, .fsyncDir, .rename]),
+  ("dict-of-arrays", [.mkstemp, .write 2, .write 0, .write 160, .flush, .flush, .fsync, .close, .flush, .fsyncDir, .rename]),
   ("resave-pack", [.lockGet, .mkstemp, .write 2, .write 0, .write 59, .flush, .flush, .fsync, .close, .flush, .fsyncDir, .rename, .lockRelease]),
-  ("packed-overwrite-0", [.mkTempElsewhere, .write 2, .write 0, .write 26, .flush, .flush, .fsync, .close, .flush, .fsyncDir, .lockGet, .mkstemp, .write 2, .write 0, .write 36, .flush, .flush, .fsync, .close, .flush, .fsyncDir, .rename, .lockRelease])]
-def packedOverwritePublishesFirst : Bool := false
+  ("packed-overwrite-0", [.mkstemp, .write 2, .write 0, .write 26, .flush, .flush, .fsync, .close, .flush, .fsyncDir, .rename]),
+  ("packed-overwrite-1", [.lockGet, .mkstemp, .write 2, .write 0, .write 36, .flush, .flush, .fsync, .close, .flush, .fsyncDir, .rename, .lockRelease])]
+def packedOverwritePublishesFirst : Bool := true
 /-- the same writes with their k-th data primitive (write / flush / fsync on the temporary file) reporting an error, for every k: what the real dump() does then -/
 def failingSequences : List (String × List FOp) := [
-]
+  ("pickle-small-fails-at-1-write", [.mkstemp, .failed, .raised]),
+  ("pickle-small-fails-at-2-write", [.mkstemp, .write 2, .write 0, .failed, .raised]),
+  ("pickle-small-fails-at-3-flush", [.mkstemp, .write 2, .write 0, .write 32, .failed, .raised]),
+  ("pickle-small-fails-at-4-flush", [.mkstemp, .write 2, .write 0, .write 32, .flush, .failed, .raised]),
+  ("pickle-small-fails-at-5-fsync", [.mkstemp, .write 2, .write 0, .write 32, .flush, .flush, .failed, .raised]),
+  ("pickle-large-fails-at-1-write", [.mkstemp, .failed, .raised]),
+  ("pickle-large-fails-at-2-write", [.mkstemp, .write 2, .failed, .raised]),
+  ("pickle-large-fails-at-3-write", [.mkstemp, .write 2, .write 34926, .failed, .raised]),
+  ("pickle-large-fails-at-4-write", [.mkstemp, .write 2, .write 34926, .write 23276, .failed, .raised]),
+  ("pickle-large-fails-at-5-flush", [.mkstemp, .write 2, .write 34926, .write 23276, .write 5223, .failed, .raised]),
+  ("pickle-large-fails-at-6-flush", [.mkstemp, .write 2, .write 34926, .write 23276, .write 5223, .flush, .failed, .raised]),
+  ("pickle-large-fails-at-7-fsync", [.mkstemp, .write 2, .write 34926, .write 23276, .write 5223, .flush, .flush, .failed, .raised]),
+  ("array-raw-fails-at-1-write", [.mkstemp, .failed, .truncate, .write 2, .write 0, .write 0, .write 4345, .flush, .flush, .fsync, .close, .fsyncDir, .rename]),
+  ("array-raw-fails-at-2-write", [.mkstemp, .write 128, .failed, .truncate, .write 2, .write 0, .write 0, .write 4345, .flush, .flush, .fsync, .close, .fsyncDir, .rename]),
+  ("array-raw-fails-at-3-flush", [.mkstemp, .write 128, .write 24000, .failed, .truncate, .write 2, .write 0, .write 0, .write 4345, .flush, .flush, .fsync, .close, .fsyncDir, .rename]),
+  ("array-raw-fails-at-4-fsync", [.mkstemp, .write 128, .write 24000, .flush, .failed, .truncate, .write 2, .write 0, .write 0, .write 4345, .flush, .flush, .fsync, .close, .fsyncDir, .rename]),
+  ("array-compressed-fails-at-1-write", [.mkstemp, .failed, .raised]),
+  ("array-compressed-fails-at-2-write", [.mkstemp, .write 2, .write 0, .write 0, .failed, .raised]),
+  ("array-compressed-fails-at-3-flush", [.mkstemp, .write 2, .write 0, .write 0, .write 4345, .failed, .raised]),
+  ("array-compressed-fails-at-4-flush", [.mkstemp, .write 2, .write 0, .write 0, .write 4345, .flush, .failed, .raised]),
+  ("array-compressed-fails-at-5-fsync", [.mkstemp, .write 2, .write 0, .write 0, .write 4345, .flush, .flush, .failed, .raised]),
+  ("array-object-fails-at-1-write", [.mkstemp, .failed, .truncate, .write 2, .write 0, .write 0, .write 213, .flush, .flush, .fsync, .close, .fsyncDir, .rename]),
+  ("array-object-fails-at-2-write", [.mkstemp, .write 128, .failed, .truncate, .write 2, .write 0, .write 0, .write 213, .flush, .flush, .fsync, .close, .fsyncDir, .rename]),
+  ("array-object-fails-at-3-flush", [.mkstemp, .write 128, .write 162, .failed, .truncate, .write 2, .write 0, .write 0, .write 213, .flush, .flush, .fsync, .close, .fsyncDir, .rename]),
+  ("array-object-fails-at-4-fsync", [.mkstemp, .write 128, .write 162, .flush, .failed, .truncate, .write 2, .write 0, .write 0, .write 213, .flush, .flush, .fsync, .close, .fsyncDir, .rename])]
 /-- the commands redis_store.dump sends that change the result key, per case (overwrite of an existing key) -/
 def redisDumpCommands : List (String × List String) := [
   ("pickle-small", ["SET"]),
